@@ -411,6 +411,21 @@ def sp_spd_task(eng, node, st):
     return vbool(f(th(t.t), eps))
 
 
+def sp_ln(eng, node, st):
+    f = eng.uf('ln_uf', R, R)
+    return vreal(f(to_real(eng.ev(node.args[0], st))))
+
+
+def sp_pi(eng, node, st):
+    return eng.const_pi(st)
+
+
+def sp_isfinite(eng, node, st):
+    """reals are always finite; kept so that the same clause text has its native (IEEE) reading"""
+    eng.ev(node.args[0], st)
+    return vbool(True)
+
+
 def sp_transpose(eng, node, st):
     from . import models
     return models.transpose(eng, st, eng.ev(node.args[0], st))
@@ -426,7 +441,7 @@ def sp_cnt(eng, node, st):
     return vint(models.cnt(eng, st, a)(a, k, p))
 
 
-SPEC_BUILTINS = dict(cnt=sp_cnt, psum=sp_psum, rsum=sp_rsum, norm=sp_norm, norm2d=sp_norm2d, sqrt=sp_sqrt, matmul=sp_matmul, task_theta=sp_task_theta, spd_compressed_task=sp_spd_task, logdet=sp_logdet, is_spd=sp_is_spd, copyof=sp_copyof, rows_of=sp_rows_of, cov=sp_cov, colmean=sp_colmean, transpose=sp_transpose, eigh_of=sp_eigh_of, forall=sp_forall, exists=sp_exists, implies=sp_implies, ite=sp_ite, old=sp_old,
+SPEC_BUILTINS = dict(cnt=sp_cnt, psum=sp_psum, rsum=sp_rsum, norm=sp_norm, norm2d=sp_norm2d, sqrt=sp_sqrt, matmul=sp_matmul, ln=sp_ln, pi=sp_pi, isfinite=sp_isfinite, task_theta=sp_task_theta, spd_compressed_task=sp_spd_task, logdet=sp_logdet, is_spd=sp_is_spd, copyof=sp_copyof, rows_of=sp_rows_of, cov=sp_cov, colmean=sp_colmean, transpose=sp_transpose, eigh_of=sp_eigh_of, forall=sp_forall, exists=sp_exists, implies=sp_implies, ite=sp_ite, old=sp_old,
                      fresh=sp_fresh, allocated=sp_allocated, in_set=sp_in_set, same=sp_same, unchanged=sp_unchanged, isnone=sp_isnone, real=sp_real,
                      eqcontent=sp_eqcontent, let=sp_let, alloc_now=sp_alloc)
 
@@ -627,6 +642,8 @@ def coerce(eng, st, v, kind, what):
             return Val(kind, v.t)
     if kind == 'any':
         return v
+    if isinstance(v.k, tuple) and v.k[0] == 'stack' and isinstance(kind, tuple) and kind[0] == 'list' and kind[1] == v.k[1]:
+        return Val(kind, v.t)       # stacked arrays are modelled as the list they were built from
     if isinstance(kind, tuple) and kind[0] == 'tuple' and isinstance(v.k, tuple) and v.k[0] == 'tuple' \
             and len(kind[1]) == len(v.k[1]):
         return v
